@@ -123,10 +123,10 @@ Proof. unfold put, last_of. destruct (lookup _ _); destruct (mty m =? _); auto. 
 Theorem run_chk_C03 : forall c ops s U, InvL U (seqs s) (events s) -> chk_C03 (last_of s) (run c s ops) = true.
 Proof.
   intros c. induction ops as [|o ops IH]; intros s U HI; cbn [run chk_C03]; auto.
-  destruct o as [[m|] now | now | ]; cbn [step].
-  - pose proof (put_inv c now m s U HI) as HP.
-    pose proof (cleanup_chk false c now (put c now m s) _ HP) as HC. pose proof (cleanup_ok false c now (put c now m s) _ HP) as HO.
-    destruct (cleanup false c now (put c now m s)) as [s' outs]. destruct HO as (U' & _ & HI' & _ & _).
+  destruct o as [[m|] now now2 | now | ]; cbn [step].
+  - pose proof (put_inv c now now2 m s U HI) as HP.
+    pose proof (cleanup_chk false c now2 (put c now m s) _ HP) as HC. pose proof (cleanup_ok false c now2 (put c now m s) _ HP) as HO.
+    destruct (cleanup false c now2 (put c now m s)) as [s' outs]. destruct HO as (U' & _ & HI' & _ & _).
     specialize (HC [] eq_refl eq_refl). rewrite app_nil_r, put_last in HC. cbn [chk_C03]. rewrite HC. eapply IH; eauto.
   - cbn [chk_C03]. cbn. eapply IH; eauto.
   - destruct (closed s).
